@@ -38,7 +38,9 @@ def dense_links(w, rng):
                     w.emit('link src %s handle %s' % (h.slot, s.slot))
         for m in w.alive('M', block=b.slot):
             if arrays and rng.random() < 0.5:
-                w.emit('single extents %s handle %s' % (m.slot, rng.choice(arrays).slot))
+                # extents must have the shape of the positions: prefer an array that has it (and is not the positions array itself)
+                same = [a for a in arrays if m.pos is not None and a is not m.pos and a.shape == m.pos.shape]
+                w.emit('single extents %s handle %s' % (m.slot, (rng.choice(same) if same and rng.random() < 0.8 else rng.choice(arrays)).slot))
     secs = w.alive('S')
     for h in w.alive(['B', 'A', 'D', 'T', 'M', 'G', 'O']):
         if secs and rng.random() < 0.4:
@@ -91,6 +93,33 @@ def long_name_history(rng, length, which):
     w.emit('link ref %s handle %s' % (t.slot, a.slot))
     if rng.random() < 0.5: w.emit('link mA %s handle %s' % (g.slot, a.slot))
     w.emit('dump'); w.delete(a, rng.choice(['name', 'handle'])); w.emit('dump'); w.emit('valid %s deleted' % a.slot)
+    return w.lines
+
+def holder_case(rng):
+    """a multi-tag with positions AND extents, features on two arrays: one of the arrays is deleted — every field of the holder
+    that does not mention the victim must come through untouched (the extents when the positions go, the later feature when the
+    array of an earlier one goes, and the other way round)"""
+    w = World(rng, names=PLAIN)
+    w.open('ow')
+    b = w.mk('B', None, name='b')
+    arrs = [w.mk('A', b, name='arr%d' % i, extra=[3]) for i in range(4)]
+    m = w.mk('M', b, name='m', extra=arrs[0])
+    t = w.mk('T', b, name='t')
+    w.emit('single extents %s handle %s' % (m.slot, arrs[1].slot))
+    for h in (m, t):
+        for a in rng.sample(arrs, 3):
+            w.mk('R', h, name='x', extra=a)
+        for a in rng.sample(arrs, 2):
+            w.emit('link ref %s handle %s' % (h.slot, a.slot))
+    if rng.random() < 0.5: w.reopen('rw')
+    order = list(arrs); rng.shuffle(order)
+    for v in order[:rng.randint(1, 3)]:
+        w.emit('dump')
+        w.emit('xcheck R %s' % m.slot); w.emit('xcheck R %s' % t.slot)
+        w.delete(v, rng.choice(['name', 'handle']))
+        w.emit('dump')
+        w.emit('valid %s deleted' % v.slot)
+        w.emit('xcheck R %s' % m.slot); w.emit('xcheck R %s' % t.slot)
     return w.lines
 
 def history(rng, tier):
@@ -158,6 +187,7 @@ def cases(tier, seed, rng):
     from vlib.runner import Case
     n = 60 if tier == 'quick' else 1500
     out = [Case(history(rng, tier), 'gen:graph') for _ in range(n)]
+    out += [Case(holder_case(rng), 'gen:holder-fields') for _ in range(8 if tier == 'quick' else 150)]
     # link paths around 256 characters ("/data/b/data_arrays/<name>", "/data/b/tags/<name>/references/<id>", "/data/b/groups/<name>/data_arrays/<id>")
     for length in (range(228, 246) if tier == 'quick' else range(150, 300)):
         out.append(Case(long_name_history(rng, length, 'array'), 'gen:long-array-name'))
